@@ -80,6 +80,19 @@ where
             Ok(_) => {
                 self.record_end = self.inner.get_ref().count;
 
+                // The genotypes are matched to the header samples by position, so a record that
+                // declares another number of samples cannot be interpreted
+                let record_samples = self.buf.genotypes().len();
+                if record_samples != self.samples.len() {
+                    return ReadStatus::Error(io::Error::new(
+                        io::ErrorKind::InvalidData,
+                        format!(
+                            "record holds genotypes for {record_samples} samples, but the header names {}",
+                            self.samples.len()
+                        ),
+                    ));
+                }
+
                 let result = self
                     .buf
                     .genotypes()
